@@ -779,7 +779,10 @@ def typ(t):
     if t in TYP:
         return '.' + t
     if t.startswith('dyn Dimension'):
-        return '.Dexplicit'
+        # `dyn Dimension<L = L, M = M, …, Kind = dyn K>`: the explicit dimension only stands for "the same exponents" when
+        # every base-quantity slot is bound to the parameter of the same name
+        pairs = _re.findall(r'(\w+) = (\w+)', _re.sub(r'Kind = (dyn )?[\w$:]+', '', t))
+        return '.Dexplicit' if pairs and all(a == b for a, b in pairs) else '.other'
     if _re.fullmatch(r'\$quantities < \$ \( \$crate :: typenum :: Sum < D :: \$symbol , Da :: \$symbol > \) , \+ >', t):
         return '.Dsum'
     return '.other'
